@@ -10,7 +10,8 @@
  *   Return{v[3],evals}             value reported by NelderMeadSimplex, number of evaluations it made
  *   Check{v[3]}                    objective re-evaluated by the harness at the returned point
  *   Quad{dim,cond,judge,conv,dist} strictly convex quadratic: |returned point - true minimiser| / max(1,|minimiser|) in 1e-9 units;
- *                                  judge = 1 for runs with the large iteration budget (4000*dim), conv = 1 when it stopped on its tolerance
+ *                                  judge = 1 for runs with the large iteration budget (4000*dim), conv = 1 when it stopped on its tolerance;
+ *                                  cls = 1: offset class (|f*| = 1e3..1e7, xtol 1e-10 / 1e-8), R = max(log10 xtol, log10|f*| - 15), adist = absolute distance (1e-9 units)
  */
 #include "scientific.h"
 #include "verif_rt.h"
@@ -60,10 +61,19 @@ int main(int argc, char **argv){
     dvector *x0, *best, *step = NULL; NewDVector(&x0, dim); initDVector(&best);
     for(int i = 0; i < dim; i++) x0->data[i] = (vr_unif(&g) - 0.5) * 20.0;
     if(id % 2){ NewDVector(&step, dim); for(int i = 0; i < dim; i++) step->data[i] = (0.1 + 1.9 * vr_unif(&g)) * (vr_unif(&g) < 0.5 ? -1 : 1); }
+    /* offset class (light runs only): the same quadratics with a minimum value of large magnitude and a coarser tolerance; the
+       stop test is documented as ABSOLUTE (spread of the vertex values < xtol), so the returned point must still be within
+       10 sqrt(max(xtol, resolution of f at |f*|)) of the minimiser (lambda_min = 1) */
+    int cls = (!full && id % 6 == 3) ? 1 : 0; double xtol = 1e-12; int xe = -12, fe = 1;
+    if(cls){
+      int k = 3 + 2 * (int)vr_int(&g, 0, 2); f0 = (vr_unif(&g) < 0.7 ? -1.0 : 1.0) * pow(10.0, k) * (0.1 + 0.9 * vr_unif(&g)); fe = k;
+      xe = vr_unif(&g) < 0.5 ? -10 : -8; xtol = pow(10.0, xe); maxit = 4000 * (size_t)dim;
+    }
+    int R = xe > fe - 15 ? xe : fe - 15;
     long cap = (dim + 1) + (long)maxit * (dim + 3);
     VRT_EMIT("{\"e\":\"Reset\",\"id\":%d,\"n\":%d,\"maxit\":%ld,\"cap\":%ld,\"full\":%d}", id, dim, (long)maxit, cap, full);
     nevals = 0; logging = full; initbest = 0;
-    double res = NelderMeadSimplex(quad, x0, step, 1e-12, maxit, best);
+    double res = NelderMeadSimplex(quad, x0, step, xtol, maxit, best);
     long ev = nevals, l[3];
     logging = 0;
     if(!full){ vcode3(initbest, l); VRT_EMIT("{\"e\":\"InitBest\",\"v\":[%ld,%ld,%ld]}", l[0], l[1], l[2]); }
@@ -72,11 +82,12 @@ int main(int argc, char **argv){
     double fb = 0.0 / 0.0;
     if(shape){ fb = quad(best); for(int i = 0; i < dim; i++){ dist += (best->data[i] - ctr[i]) * (best->data[i] - ctr[i]); cn += ctr[i] * ctr[i]; } }
     vcode3(fb, l); VRT_EMIT("{\"e\":\"Check\",\"v\":[%ld,%ld,%ld]}", l[0], l[1], l[2]);
+    double adist = sqrt(dist);
     dist = sqrt(dist) / (sqrt(cn) > 1 ? sqrt(cn) : 1.0);
     /* judged for convergence: runs with the large iteration budget; conv = it certainly stopped on its tolerance
      * (every iteration costs at least one evaluation) */
     int judge = maxit >= 1000, conv = ev < (long)(dim + 1) + (long)maxit;
-    VRT_EMIT("{\"e\":\"Quad\",\"dim\":%d,\"cond\":%ld,\"judge\":%d,\"conv\":%d,\"dist\":%ld}", dim, (long)ceil(cond), judge, conv, shape ? vq9(dist) : VQ_MAX);
+    VRT_EMIT("{\"e\":\"Quad\",\"dim\":%d,\"cond\":%ld,\"judge\":%d,\"conv\":%d,\"dist\":%ld,\"cls\":%d,\"R\":%d,\"adist\":%ld}", dim, (long)ceil(cond), judge, conv, shape ? vq9(dist) : VQ_MAX, cls, R, shape ? vq9(adist) : VQ_MAX);
     DelDVector(&x0); DelDVector(&best); if(step) DelDVector(&step);
   }
   vrt_close();
